@@ -349,6 +349,9 @@ func (r *rewriter) file() {
 		case *ast.SelectorExpr:
 			if id, ok := x.X.(*ast.Ident); ok {
 				if pn, ok := r.p.TypesInfo.Uses[id].(*types.PkgName); ok {
+					if pn.Imported().Path() == "sync" && x.Sel.Name == "Pool" {
+						warnings = append(warnings, "sync.Pool (contents depend on GC and scheduling) at "+r.p.Fset.Position(x.Pos()).String())
+					}
 					switch pn.Imported().Path() {
 					case "math/rand", "crypto/rand":
 						warnings = append(warnings, "randomness "+pn.Imported().Path()+"."+x.Sel.Name+" at "+r.p.Fset.Position(x.Pos()).String())
